@@ -1097,10 +1097,34 @@ def gen_phase_chain(rnd):
             'decimal': False, 'step_budget': True}
 
 
+def gen_overtime(rnd):
+    """a crew working Mon-Fri whose resource object grants some tasks extra units on any day (overtime at weekends): full
+    days of regular work in front, so that the overtime task meets a fully booked day followed by a day the calendar leaves empty"""
+    direction = rnd.choice(['fwd', 'fwd', 'bwd'])
+    base = REAL(2026, 1, 5) + td(days=rnd.randint(0, 6))
+    if direction == 'bwd':
+        base = base + td(days=28)
+    n = rnd.randint(2, 5)
+    tasks = []
+    for i in range(n):
+        tasks.append({'id': i + 1, 'name': f't{i + 1}', 'parent': None, 'estimate': rnd.choice([8, 8, 16, 24, 40]), 'spent': None, 'resource': 'A',
+                      'milestone': False, 'min_start': None, 'start': None, 'end': None, 'attrs': {}})
+    caps = {}
+    for t in rnd.sample(tasks, rnd.randint(1, 2)):
+        t['estimate'] = rnd.choice([2, 4, 6])
+        caps[str(t['id'])] = rnd.choice([[1, 4], [0, 4], [1, 2]])
+    links = [[i, i - 1] for i in range(1, n) if rnd.random() < 0.3]
+    return {'kind': 'sched', 'tasks': tasks, 'links': links, 'externals': [], 'resources': {'A': ['weekly', {'days': [0, 1, 2, 3, 4], 'units': 8}]},
+            'dir': direction, 'date': base, 'now': REAL(2020, 1, 1), 'balance': True, 'default_estimate': 0, 'class': 'any', 'decimal': False,
+            'task_caps': caps}
+
+
 def gen_c14_case(rnd):
     k = rnd.random()
     if k > 0.985:
         return gen_phase_chain(rnd)
+    if k > 0.955:
+        return gen_overtime(rnd)
     direction = rnd.choice(['fwd', 'bwd'])
     if k < 0.35:
         case = sched.gen_case(rnd, direction, klass='any')
@@ -1126,14 +1150,22 @@ def gen_c14_case(rnd):
                 ast = mon_cal.gen_ast(rnd, rnd.choice([1, 2, 3]))
                 if ast[0] != 'num':
                     case['resources'][nm] = ast
-        if rnd.random() < 0.25 and case['tasks']:
+        if case['dir'] == 'bwd' and rnd.random() < 0.4:
+            # tasks outside the WBS that wait for members need not be planned yet: no start, no end
+            for e in case.get('externals') or []:
+                if e.get('succ_of'):
+                    e['start'] = None
+                    if rnd.random() < 0.5:
+                        e['end'] = None
+        if rnd.random() < 0.35 and case['tasks']:
             # a resource whose answer depends on the task it is asked for (second argument of the extension point): a share
             # of the day for some tasks, extra units -- also on days the calendar leaves empty -- for others
             picks = rnd.sample(case['tasks'], rnd.randint(1, min(3, len(case['tasks']))))
-            case['task_caps'] = {str(t['id']): rnd.choice([0.5, 0.25, [1, 2], [0, 4], [0.5, 1], 0]) for t in picks}
-            if rnd.random() < 0.5:
+            case['task_caps'] = {str(t['id']): rnd.choice([0.5, 0.25, [1, 2], [0, 4], [0.5, 1], 0, [1, 2], [0, 4]]) for t in picks}
+            if rnd.random() < 0.7:
                 for t in case['tasks']:
                     t['resource'] = case['tasks'][0]['resource']
+                case['balance'] = True
         return case
     if k < 0.6:
         # cycle that closes through the hierarchy
@@ -1218,7 +1250,7 @@ def run_shard(prop, tier, seed, shard, nshards, budget, acc):
     n_max = 14 if tier == 'thorough' else 12
     if prop in ('C02', 'C08', 'C06', 'C07', 'C03', 'C04'):
         _known_answer_anchor(acc)
-    _exhaustive_layer(prop, tier, shard, nshards, acc)
+    _exhaustive_layer(prop, tier, shard, nshards, acc, budget)
     while budget.more():
         rnd = core.case_rng(seed, shard, idx, 'sched')
         idx += 1
@@ -1269,7 +1301,7 @@ def run_shard(prop, tier, seed, shard, nshards, budget, acc):
             acc.sample(_brief(case))
 
 
-def _exhaustive_layer(prop, tier, shard, nshards, acc):
+def _exhaustive_layer(prop, tier, shard, nshards, acc, budget=None):
     """small-scope layer (vf/exh_sched.py): every forest x every link set up to the scope, walked by this shard's share"""
     from vf import exh_sched
     dirs = ['fwd'] if prop in FWD_ONLY else ['bwd'] if prop in BWD_ONLY else ['fwd', 'bwd']
@@ -1278,6 +1310,10 @@ def _exhaustive_layer(prop, tier, shard, nshards, acc):
         for i, (n, parents, links) in enumerate(exh_sched.cases(direction, n_max, max_links)):
             if i % nshards != shard:
                 continue
+            if budget is not None and budget.overdue():
+                acc.count('exhaustive_layer_truncated')
+                acc.inconclusive.append('exhaustive small-scope layer not completed within three times the shard budget')
+                return
             nows = ['early', 'same' if i % 2 else 'late'] if direction == 'fwd' else ['early']
             for bal in (True, False):
                 for nk in nows:
